@@ -279,7 +279,9 @@ class Loops:
             except ContinueEx:
                 pass
             except BreakEx:
-                raise Unsupported('break in loop')
+                # the loop ends in the middle of an arbitrary iteration: what follows the loop sees this state
+                ex.event('loop_break', key, i)
+                return 'break'
             hook = getattr(ex.task.contract, 'on_iteration', None)
             if hook is not None:
                 hook(ex, key, i, desc)
@@ -297,6 +299,7 @@ class Loops:
             ex.event('loop_exit', key, i)
             if on_exit:
                 on_exit(i)
+            return 'exit'
 
     def for_loop(self, ex, st, env):
         key = self.loop_key(ex, st)
@@ -318,7 +321,8 @@ class Loops:
                     except ContinueEx:
                         continue
                     except BreakEx:
-                        break
+                        return
+                ex.exec_block(st.orelse, env)
                 return
         if desc.kind == 'pytuple':
             for item in desc.items:
@@ -328,7 +332,8 @@ class Loops:
                 except ContinueEx:
                     continue
                 except BreakEx:
-                    break
+                    return
+            ex.exec_block(st.orelse, env)
             return
         names = assigned_names(st.body) | assigned_names([st.target])
 
@@ -341,12 +346,11 @@ class Loops:
         for n in assigned_names([st.target]):
             if not env.has(n):
                 pass
-        self.run_loop(ex, key, env, desc, bind, body, st.body, names)
+        if self.run_loop(ex, key, env, desc, bind, body, st.body, names) != 'break':
+            ex.exec_block(st.orelse, env)
 
     def while_loop(self, ex, st, env):
         key = self.loop_key(ex, st)
-        if st.orelse:
-            raise Unsupported('while-else')
         names = assigned_names(st.body)
         self.cur_mod_names[key] = [n for n in names if env.has(n)]
         self.check_invs(ex, key, env, z3.IntVal(0), 'entry')
@@ -366,7 +370,8 @@ class Loops:
             except ContinueEx:
                 pass
             except BreakEx:
-                raise Unsupported('break in loop')
+                ex.event('loop_break', key, i)
+                return
             self.check_invs(ex, key, env, i + 1, 'preserved')
             raise PathEnd()
         else:
@@ -376,6 +381,7 @@ class Loops:
             self.assume_invs(ex, key, env, i)
             c = ex.eval(st.test, env)
             ex.assume(z3.Not(ex.truthy(c)))
+            ex.exec_block(st.orelse, env)
 
     # -- comprehensions -----------------------------------------------------------------------------------
     def list_comp(self, ex, node, env):
